@@ -212,4 +212,55 @@ def innerRefutedBy (cs : List ((List Dag × Dag) × String)) (b : Box) (p : List
     | some v => specViolated x.2 v
     | none => false
 
+/-! ### the certificates evaluated with EXACT rational interval arithmetic
+
+  The rules above evaluate the Krawczyk / regularity tests with outward-rounded binary64 interval arithmetic;
+  on the existence boxes reported by the library (a few ulps wide) the rounding errors of the test are as large
+  as the box and the true claim stays undecided.  The rules below use `Newton.existCertVarsX` /
+  `Newton.uniqueCertVarsX` (exact rational interval arithmetic, IbexModel/Newton.lean): the test is sharp.
+  Soundness: IbexProofs/Props/C06.lean (`claim_of_certifiedByX`, `claim_of_findCertX`), C09rules.lean
+  (`hasZeroByX_sound`, `keptAllByX_sound`). -/
+
+/-- CERTIFICATE (any system), exact arithmetic: `certifiedBy` with the exact existence and uniqueness
+    certificates -/
+def certifiedByX (eqs : List (List Dag × Dag)) (e u : Box) (vars : List Nat) (x : Box) : Bool :=
+  pointConsts eqs && Newton.existCertVarsX eqs x vars && Box.subset x e && Box.subset e u &&
+  Newton.uniqueCertVarsX eqs u vars && x.length == e.length &&
+  ((List.range e.length).all fun i => vars.contains i ||
+    (match x[i]?, e[i]? with | some a, some b => Itv.subset b a | _, _ => false))
+
+/-- `findCert` with the exact certificates -/
+def findCertX (eqs : List (List Dag × Dag)) (e u : Box) (vars : List Nat) (tries : Nat) : Option Nat :=
+  (List.range tries).find? fun k => certifiedByX eqs e u vars (shrink e vars k)
+
+/-- square systems, a zero known exactly: `certifiedByZero` with the exact uniqueness certificate -/
+def certifiedByZeroX (eqs : List (List Dag × Dag)) (e u : Box) (p : List Rat) : Bool :=
+  ratZero eqs p && ratIn p e && Box.subset e u && Newton.uniqueCertX eqs u && e.length == u.length
+
+/-- CERTIFICATE that the box `s` contains a zero: the exact Krawczyk certificate on a sub-box `x`
+    (`w`: any point of `x`, it fixes the parameters) -/
+def hasZeroByX (eqs : List (List Dag × Dag)) (s x : Box) (vars : List Nat) (w : List Rat) : Bool :=
+  pointConsts eqs && Box.subset x s && Newton.existCertVarsX eqs x vars && ratIn w x
+
+/-- CERTIFICATE that a contraction of a square system kept ALL the zeros of the box: exact uniqueness
+    certificate on the input box (all the coordinates are variables), and the zero is known exactly and still
+    in the output box -/
+def keptAllByX (eqs : List (List Dag × Dag)) (i o : Box) (z : List Rat) : Bool :=
+  Newton.uniqueCertVarsX eqs i (List.range i.length) && ratZero eqs z && ratIn z i && ratIn z o
+
+/-- `existSplit` with the exact existence certificate -/
+def existSplitX (eqs : List (List Dag × Dag)) (vars : List Nat) : Nat → Box → Bool
+  | 0, e => Newton.existCertVarsX eqs e vars
+  | d + 1, e => Newton.existCertVarsX eqs e vars ||
+    (match widestParam e vars with
+     | some (i, a, b) =>
+       !vars.contains i && decide (a ≤ b) && decide (e[i]? = some (.mk (.fin a) (.fin b))) &&
+       existSplitX eqs vars d (setAt e i (.mk (.fin a) (.fin ((a + b) / 2)))) &&
+       existSplitX eqs vars d (setAt e i (.mk (.fin ((a + b) / 2)) (.fin b)))
+     | none => false)
+
+/-- `certifiedSplit` with the exact certificates -/
+def certifiedSplitX (eqs : List (List Dag × Dag)) (e u : Box) (vars : List Nat) (depth : Nat) : Bool :=
+  pointConsts eqs && existSplitX eqs vars depth e && Box.subset e u && Newton.uniqueCertVarsX eqs u vars
+
 end Ibex.Verdict
